@@ -121,7 +121,10 @@ def show_cmd(c):
         return f"write {c['path']} <{c.get('cname', fp(c['bytes']))}>"
     if c['op'] == 'delete':
         return f"delete {c['path']}"
-    return 'xvc ' + ' '.join(xvc_args(c))
+    try:
+        return 'xvc ' + ' '.join(xvc_args(c))
+    except ValueError:
+        return f"xvc file {c['op']} " + ' '.join(c.get('targets', []))
 
 
 # ------------------------------------------------------------------------------------------------ observation
